@@ -97,6 +97,61 @@ def distinctStarts : List TermLocation → Bool
 
 def br (tags : List String) : String := if tags.isEmpty then "" else " br=" ++ ",".intercalate tags
 
+/-! ### the admissible orders of OrderTermLocations -/
+
+/-- all ways of inserting `x` into `l` -/
+def insertions {α : Type} (x : α) : List α → List (List α)
+  | [] => [[x]]
+  | y :: ys => (x :: y :: ys) :: (insertions x ys).map (y :: ·)
+
+def perms {α : Type} : List α → List (List α)
+  | [] => [[]]
+  | x :: xs => (perms xs).flatMap (insertions x)
+
+/-- split a `Less`-sorted list into its classes of mutually un-separated locations -/
+def tieClasses (tb : Bool) : List TermLocation → List (List TermLocation)
+  | [] => []
+  | a :: rest =>
+    match tieClasses tb rest with
+    | (b :: cls) :: more => if !lessTL tb a b && !lessTL tb b a then (a :: b :: cls) :: more else [a] :: (b :: cls) :: more
+    | other => [a] :: other
+
+def spansOf (l : List TermLocation) : List (Int × Int) := l.map fun x => (x.start, x.stop)
+
+def dedupBy {α β : Type} [BEq β] (key : α → β) : List α → List β → List α
+  | [], _ => []
+  | x :: xs, seen => if seen.contains (key x) then dedupBy key xs seen else x :: dedupBy key xs (key x :: seen)
+
+/-- the distinct arrangements of a tie class as far as anything downstream can see (`bestOrd_congr`: only the
+sequence of spans matters): next comes any location whose span differs from those already tried at this position -/
+def spanPerms : Nat → List TermLocation → List (List TermLocation)
+  | 0, l => [l]
+  | _, [] => [[]]
+  | f + 1, l =>
+    let firsts := dedupBy (fun (x : TermLocation) => (x.start, x.stop)) l []
+    firsts.flatMap fun x => (spanPerms f (l.erase x)).map (x :: ·)
+
+/-- every `Less`-sorted permutation of `locs` up to the order among locations with the same span, capped at `cap`
+orders; the stable order comes first -/
+def admissibleOrders (tb : Bool) (cap : Nat) (locs : List TermLocation) : List (List TermLocation) × Bool :=
+  let ord := orderTermLocations tb locs
+  let classes := tieClasses tb ord
+  let choices : List (List (List TermLocation)) := classes.map fun c =>
+    if c.length ≤ 1 then [c] else dedupBy spansOf (c :: (spanPerms c.length c).take (4 * cap)) []
+  let total := choices.foldl (fun n c => n * c.length) 1
+  let all : List (List TermLocation) := choices.foldr (fun c acc =>
+    (c.flatMap fun x => acc.map fun rest => x ++ rest).take cap) [[]]
+  (all, total > cap)
+
+def showResult (m : Option (List Bytes)) : String := match m with | some ss => showStrings ss | none => "panic"
+
+/-- the absolute marked spans of one returned string for the fragment `f` -/
+def absMarks (html : Bool) (f : Fragment) (s : Bytes) : List (Int × Int) :=
+  let body := match dropPrefix s separator with
+    | some r => if f.start ≠ 0 then r else s
+    | none => s
+  (markSpans html body.length body 0 none).map fun (x, y) => (f.start + (x : Int), f.start + (y : Int))
+
 def c20step (v : Variant) (op : String) (impl : String) : Variant × String :=
   let ws := op.splitOn " "
   let out : String × String := match ws with
@@ -121,9 +176,18 @@ def c20step (v : Variant) (op : String) (impl : String) : Variant × String :=
         | none => ("bad-op", "na")
     | ["merge", l] => match parseLocs l with
         | some locs =>
-          let m := mergeOverlapping locs
-          (showLocs m, "ok" ++ br [if m.any Option.isNone then "merge-merged" else "merge-nothing",
-                                    if sortedByStart locs then "merge-sorted-input" else "merge-unsorted-input"])
+          let m := mergeOverlapping v.mergeMax locs
+          let srt := sortedByStart locs && locs.all (fun x => x.start < x.stop)
+          let exact := match locs with
+            | a :: rest =>
+              let r := absorbRun v.mergeMax a.stop rest
+              m == some { a with stop := r.2 } :: (List.replicate r.1 none ++ (rest.drop r.1).map some)
+            | [] => true
+          (showLocs m, (if srt && !exact then "bad:merge-closed-form-differs" else "ok") ++
+                       br ([if m.any Option.isNone then "merge-merged" else "merge-nothing",
+                            if sortedByStart locs then "merge-sorted-input" else "merge-unsorted-input"] ++
+                           (if srt && !monotoneStops locs then ["merge-nested-input"] else []) ++
+                           (if srt && mergeOverlapping false locs != mergeOverlapping true locs then ["merge-shrinks-a-location"] else [])))
         | none => ("bad-op", "na")
     | ["frag", fs, t, l] => match fs.toInt?, hexToBytes t, parseLocs l with
         | some fsize, some orig, some locs =>
@@ -171,38 +235,86 @@ def c20step (v : Variant) (op : String) (impl : String) : Variant × String :=
               else "ok"
           ((match m with | some s => bytesToHex s | none => "panic"), verdict ++ br tags)
         | _, _, _, _ => ("bad-op", "na")
-    | [bop, k, fs, n, t, l] =>
-      if bop != "best" && bop != "beste" then ("bad-op", "na") else
+    | bop :: k :: fs :: n :: t :: l :: extra =>
+      -- best: direct call (search-like or adversarial locations); beste: locations of a real search with a bundled
+      -- analyzer on a single-valued field; bestx: real search, analyzer assembled from bundled filters that emit
+      -- nested / equal-Start tokens; bestm: real search, multi-valued field. `quiet=r1,r2`: oracles whose finding is
+      -- not (yet) listed in known_findings.json report `ok` plus an `open-finding:` counter.
+      if !["best", "beste", "bestx", "bestm"].contains bop || extra.length > 1 then ("bad-op", "na") else
       match fs.toInt?, n.toInt?, hexToBytes t, parseLocs l with
         | some fsize, some num, some orig, some locs =>
+          let quiet : List String := match extra with
+            | [q] => (match q.splitOn "=" with | ["quiet", r] => r.splitOn "," | _ => [])
+            | _ => []
+          let real := bop != "best"
           let html := k == "html"
-          let m := bestFragments v (fmtOf k) orig fsize num locs
-          let ord := orderTermLocations locs
+          let (orders, capped) := admissibleOrders v.tieBreak 48 locs
+          let results := orders.map fun o => (o, bestFragmentsOrd v (fmtOf k) orig fsize num locs o)
+          let modelSet := dedupBy showResult (results.map (·.2)) []
+          let implSet := impl.splitOn "|"
+          let ord := orderTermLocations v.tieBreak locs
           let ok := locsOK orig ord
           let fits := someFits orig fsize locs
+          let m := match results with | r :: _ => r.2 | [] => bestFragments v (fmtOf k) orig fsize num locs   -- the stable order comes first
           let tags := [if ok then "best-locs-ok" else "best-locs-adversarial", "best-" ++ k] ++
             (if ok && fits then ["best-match-fits"] else []) ++
             (if ok && !disjointLocs ord then ["best-overlapping-locs"] else []) ++
+            (if ok && !monotoneStops ord then ["best-nested-locs"] else []) ++
             (if ok && !cleanUtf8 orig then ["best-text-with-U+FFFD"] else []) ++
-            (if !distinctStarts locs then ["best-start-ties"] else []) ++
+            (if !distinctStarts locs then ["best-start-ties", if tiesAgree locs then "best-ties-agree" else "best-ties-differ"] else []) ++
+            (if modelSet.length > 1 then ["best-order-dependent"] else []) ++
+            (if implSet.length > 1 then ["best-impl-several-outputs"] else []) ++
+            (if capped then ["best-orders-capped"] else []) ++
             (match m with
              | none => ["best-model-panic"]
              | some ss => (if ss.length ≥ 2 then ["best-several"] else []) ++
                           (if ss.any (fun s => separator.isPrefixOf s) then ["best-sep-before"] else []) ++
                           (if ss.any (fun s => separator.isSuffixOf s) then ["best-sep-after"] else []))
-          let verdict :=
-            if impl == "panic" then "bad:panic" else
-            match parseStrings impl with
+          -- the property's checks on ONE returned list of strings
+          let judge1 (one : String) : String :=
+            if one == "panic" then "bad:panic" else
+            match parseStrings one with
             | none => "bad:unparsable"
             | some ss =>
-              if bop == "beste" && !ok then "bad:assumption-search-locations-not-sorted-inrange-on-rune-boundaries"
-              else if (ss.length : Int) > max num 0 then "bad:more-fragments-than-asked"
+              if (ss.length : Int) > max num 0 then "bad:more-fragments-than-asked"
               else if (html || !hasEsc orig) && ss.any (fun s => !faithful html orig s) then "bad:strip-not-slice"
               else if ok && ss.any (fun s => !validUtf8 s) then "bad:fragment-splits-rune"
-              else if ok && disjointLocs ord && fits && num ≥ 1 && (html || !hasEsc orig) &&
+              else if ok && disjointLocs ord && distinctStarts locs && fits && num ≥ 1 && (html || !hasEsc orig) &&
                       !(match ss with | s :: _ => hasMark html s | [] => false) then "bad:best-without-match"
+              else
+                -- marks: for the admissible order that explains this output, every marked span must be one
+                -- location or the union of a run of overlapping ones
+                if !(real && ok && ord.all (fun x => x.start < x.stop) && (html || !hasEsc orig)) then "ok" else
+                match results.find? (fun r => showResult r.2 == one) with
+                | none => "ok"      -- no order explains it: reported as a broken correspondence
+                | some (o, _) =>
+                  match bestSelectionOrd v orig fsize num locs o with
+                  | none => "ok"
+                  | some frs =>
+                    if (frs.zip ss).any (fun (f, s) => (absMarks html f s).any fun mk => !markOK o mk)
+                    then "bad:mark-not-occurrence-or-run" else "ok"
+          let firstBad := (implSet.map judge1).find? (· != "ok")
+          let verdict0 :=
+            match firstBad with
+            | some b => b
+            | none =>
+              if real && !ok then "bad:assumption-search-locations-not-sorted-inrange-on-rune-boundaries"
+              else if bop == "beste" && !advancing ord then
+                "bad:assumption-bundled-analyzer-locations-not-advancing"
+              else if real && implSet.length > 1 then "bad:order-dependent-output"
               else "ok"
-          ((match m with | some ss => showStrings ss | none => "panic"), verdict ++ br tags)
+          let reason := if bop == "bestm" then "multi"
+            else if verdict0 == "bad:order-dependent-output" then "order"
+            else if verdict0 == "bad:mark-not-occurrence-or-run" then "marks" else "-"
+          let quietable := verdict0 == "bad:order-dependent-output" || verdict0 == "bad:mark-not-occurrence-or-run" ||
+            (bop == "bestm" && verdict0.startsWith "bad:assumption-")
+          let (verdict, tags) :=
+            if quietable && quiet.contains reason then ("ok", tags ++ ["open-finding:" ++ reason ++ ":" ++ verdict0.replace "bad:" ""])
+            else (verdict0, tags)
+          let modelStr :=
+            if implSet.all (fun i => modelSet.any fun r => showResult r == i) then impl
+            else "|".intercalate (modelSet.map showResult)
+          (modelStr, verdict ++ br tags)
         | _, _, _, _ => ("bad-op", "na")
     | "case" :: _ => ("case", "na")
     | _ => ("bad-op", "na")
@@ -210,12 +322,13 @@ def c20step (v : Variant) (op : String) (impl : String) : Variant × String :=
 
 /-- The variant of the code the driver transcribes is the one go/extract recognised in /repo's source
 (`BlugeGen.C20.variant`, regenerated on every run). For development `VERIF_C20_FIXES` overrides it:
-`pinned`, or a comma-separated subset of `size-guard`, `loc-guard`, `rune-cut`. -/
+`pinned`, or a comma-separated subset of `size-guard`, `loc-guard`, `rune-cut`, `tie-break`, `merge-max`. -/
 def main : IO Unit := do
   let v : Variant := match (← IO.getEnv "VERIF_C20_FIXES") with
     | none => BlugeGen.C20.variant
     | some "" => BlugeGen.C20.variant
     | some s =>
       let fixes := s.splitOn ","
-      ⟨fixes.contains "size-guard", fixes.contains "loc-guard", fixes.contains "rune-cut"⟩
+      ⟨fixes.contains "size-guard", fixes.contains "loc-guard", fixes.contains "rune-cut",
+       fixes.contains "tie-break", fixes.contains "merge-max"⟩
   driverLoop v c20step
